@@ -127,6 +127,24 @@ func (p hevcPar) String() string {
 		hu(uint64(h.DpbOutputDelayDuLengthMinus1)), hu(uint64(h.DuCpbRemovalDelayIncrementLengthMinus1))}, ",")
 }
 
+// fixedBytes: bytes of a picture timing payload up to the sub-picture part, for sizing generated payloads
+func (p hevcPar) fixedBytes() int {
+	n := 0
+	if p.ffi {
+		n += 7
+	}
+	if h := p.hrd; h != nil && (h.NalHrdParametersPresentFlag || h.VclHrdParametersPresentFlag) {
+		n += int(h.AuCpbRemovalDelayLengthMinus1) + int(h.DpbOutputDelayLengthMinus1) + 2
+		if h.SubPicHrdParamsPresentFlag {
+			n += int(h.DpbOutputDelayDuLengthMinus1) + 1
+		}
+	}
+	if n == 0 {
+		return 1
+	}
+	return (n + 7) / 8
+}
+
 func genHevcSps(r *hx.Rng) hevcPar {
 	p := hevcPar{mode: r.Pick(0, 1, 2, 2, 2), ffi: r.Bool()}
 	if p.mode == 2 && r.Intn(4) != 0 {
@@ -172,6 +190,11 @@ func genNaluMsgs(r *hx.Rng, isAvc bool, ap avcPar, hp hevcPar, validOnly bool) [
 				ms = append(ms, naluMsg{pt, "*sei.PicTimingAvcSEI"})
 			} else {
 				pl := r.Bytes(r.Range(1, 14), nil)
+				if !validOnly && hp.mode == 2 && r.Bool() {
+					// exactly as many bytes as the fixed part needs under these parameters (1 in 4: one less): a wrapper
+					// that hands the decoder other flags or lengths accepts / refuses differently
+					pl = r.Bytes(hp.fixedBytes()-r.Pick(0, 0, 0, 1), nil)
+				}
 				if validOnly {
 					pl = append(pl, r.Bytes(16, nil)...) // long enough for every parameter set without sub-picture loop
 				}
@@ -298,6 +321,14 @@ func parseNalu(isAvc bool, nalu []byte, ap avcPar, hp hevcPar) (class string, li
 
 // NA / NH  id  par  nalu  class  messages
 func corrNalu(r *hx.Rng, id *int, n int) {
+	// small scope first: every unit of up to 3 bytes over header / trailing-bits / run bytes, no SPS
+	allStrings([]byte{0x06, 0x4e, 0x50, 0x01, 0x80, 0x00, 0xff}, 3, func(b []byte) {
+		for _, isAvc := range []bool{true, false} {
+			class, list, _ := parseNalu(isAvc, b, avcPar{}, hevcPar{})
+			fmt.Fprintf(out, "%s\tn%d\tnone\t%s\t%s\t%s\n", map[bool]string{true: "NA", false: "NH"}[isAvc], *id, hx.Hex(b), class, list)
+			*id++
+		}
+	})
 	for i := 0; i < n; i++ {
 		tag := fmt.Sprintf("n%d", *id)
 		*id++
